@@ -1,0 +1,63 @@
+//go:build verif
+
+package broadcast
+
+import (
+	"github.com/33cn/chain33/system/p2p/dht/protocol"
+	"github.com/33cn/chain33/types"
+	"github.com/libp2p/go-libp2p/core/peer"
+)
+
+// Verification hooks (build tag verif only): nothing here is compiled into a normal build.
+
+// VerifProto is the protocol instance created by VerifNewProtocol.
+type VerifProto struct {
+	p  *broadcastProtocol
+	ps *pubSub
+}
+
+// VerifNewProtocol does what InitProtocol does and keeps the instance for observation.
+func VerifNewProtocol(env *protocol.P2PEnv) *VerifProto {
+	p := new(broadcastProtocol)
+	p.init(env)
+	return &VerifProto{p: p, ps: &pubSub{broadcastProtocol: p}}
+}
+
+// PendLen is the number of light blocks waiting in the pending list.
+func (v *VerifProto) PendLen() int {
+	v.p.ltB.pdBlockLock.RLock()
+	defer v.p.ltB.pdBlockLock.RUnlock()
+	return v.p.ltB.pendBlockList.Len()
+}
+
+// ReqLen is the number of block requests waiting for the local height.
+func (v *VerifProto) ReqLen() int {
+	v.p.ltB.blockReqLock.RLock()
+	defer v.p.ltB.blockReqLock.RUnlock()
+	return v.p.ltB.blockRequestList.Len()
+}
+
+// PendTimeoutMs is the effective pending timeout (after defaults).
+func (v *VerifProto) PendTimeoutMs() int64 { return v.p.cfg.LtBlockPendTimeout }
+
+// BuildLtBlock is the sender-side light block construction.
+func (v *VerifProto) BuildLtBlock(b *types.Block) *types.LightBlock { return v.p.buildLtBlock(b) }
+
+// Encode is the wire encoding used for every pubsub payload.
+func (v *VerifProto) Encode(msg types.Message) []byte {
+	buf := make([]byte, 0)
+	return v.ps.encodeMsg(msg, &buf)
+}
+
+// InjectSub runs the subscriber path (the body of handleSubMsg) on one raw payload.
+func (v *VerifProto) InjectSub(topic string, raw []byte, receiveFrom, publisher peer.ID) error {
+	msg := v.ps.newMsg(topic)
+	if err := v.ps.decodeMsg(raw, nil, msg); err != nil {
+		return err
+	}
+	v.p.handleBroadcastReceive(subscribeMsg{topic: topic, value: msg, receiveFrom: receiveFrom, publisher: publisher})
+	return nil
+}
+
+// BlockSeen reports whether the receive path has recorded the block hash (hex) in the block filter.
+func (v *VerifProto) BlockSeen(hashHex string) bool { return v.p.blockFilter.Contains(hashHex) }
